@@ -1,14 +1,38 @@
 (* Corr/C09.v -- correspondence interface for GeffReader(...).read_*_props(names).build(node_mask, edge_mask). *)
 From Geff Require Export Base Dtype Vlen Tree Validate Write Read.
+From Geff Require Export ReaderSM.
 Open Scope list_scope.
 
-Inductive input := IBuild (s : option znode) (validate : bool) (nn en : option (list string)) (nmask emask : option (list bool)).
-Inductive obs := OBuild (r : res mgraph).
+Inductive input := IBuild (s : option znode) (validate : bool) (nn en : option (list string)) (nmask emask : option (list bool))
+  (* one GeffReader, a sequence of method calls; ln/le = node_prop_names / edge_prop_names as the store listed them *)
+  | ISeq (s : option znode) (validate : bool) (ln le : list string) (ops : list op).
+Inductive obs := OBuild (r : res mgraph)
+  (* outcome of __init__, then after every call: keys of node_props / edge_props / the reader's metadata tables, and the outcome *)
+  | OSeq (init : res unit) (steps : list sobs).
 Definition model (i : input) : obs :=
   match i with
   | IBuild s v nn en nm em =>
       OBuild (match reader_init KObj s v with Ok rd => build rd nn en nm em | Err e => Err e end)
+  | ISeq s v ln le ops =>
+      match reader_init_listed KObj s v ln le with
+      | Ok rd => OSeq (Ok tt) (trace (sm_init rd) ops)
+      | Err e => OSeq (Err e) []
+      end
   end.
-Definition obs_eqb (a b : obs) : bool := match a, b with OBuild x, OBuild y => res_eqb mgraph_eqb x y end.
+(* built graphs are compared with the ORDER of their property dictionaries and metadata tables *)
+Definition mgraph_eqb_ord (a b : mgraph) : bool :=
+  mgraph_eqb a b && strlist_eqb (akeys (g_nprops a)) (akeys (g_nprops b)) && strlist_eqb (akeys (g_eprops a)) (akeys (g_eprops b))
+  && strlist_eqb (akeys (md_nprops (g_md a))) (akeys (md_nprops (g_md b)))
+  && strlist_eqb (akeys (md_eprops (g_md a))) (akeys (md_eprops (g_md b))).
+Definition sobs_eqb (a b : sobs) : bool :=
+  strlist_eqb (so_nkeys a) (so_nkeys b) && strlist_eqb (so_ekeys a) (so_ekeys b)
+  && strlist_eqb (so_mdn a) (so_mdn b) && strlist_eqb (so_mde a) (so_mde b)
+  && res_eqb (option_eqb mgraph_eqb_ord) (so_res a) (so_res b).
+Definition obs_eqb (a b : obs) : bool :=
+  match a, b with
+  | OBuild x, OBuild y => res_eqb mgraph_eqb x y
+  | OSeq i x, OSeq j y => res_eqb (fun _ _ => true) i j && list_eqb sobs_eqb x y
+  | _, _ => false
+  end.
 Definition check (c : input * obs) : bool := obs_eqb (model (fst c)) (snd c).
 Definition diag (c : input * obs) : list bool := [check c].
